@@ -33,8 +33,8 @@ ROT_TOL = 1e-7     # "the same rotation" (DESIGN 2.3)
 def arr_rec(a):
     a = np.ascontiguousarray(a)
     name = str(a.dtype)
-    if name not in DT:
-        raise ValueError(f"dtype {name} outside the model")
+    if name not in DT:   # outside the model (strings, objects): still comparable
+        return {"dt": -1, "shape": list(a.shape), "vals": [repr(v) for v in a.ravel().tolist()], "dtype": name}
     if a.dtype.kind == "f":
         vals = a.view(f"uint{a.dtype.itemsize * 8}").ravel().tolist()
     elif a.dtype.kind == "b":
@@ -45,6 +45,8 @@ def arr_rec(a):
 
 
 def rec_arr(r):
+    if r["dt"] == -1:
+        return np.array(r["vals"], dtype=object).reshape(r["shape"])
     dt = np.dtype(DTN[r["dt"]])
     if dt.kind == "f":
         a = np.array(r["vals"], dtype=f"uint{dt.itemsize * 8}").view(dt)
